@@ -22,6 +22,6 @@ Your task: make a small, realistic source change in /tmp/seed-{pid} (a plausible
 
 Build kit (already in the worktree, untracked): `_seedkit/build_lib.sh` builds the engine + model compiler of the worktree into `_seedkit/libmujoco_nox.a` (no XML parser: models must be created through the mjSpec C API — mj_makeSpec, mjs_findBody(s,"world"), mjs_addBody, mjs_addJoint/mjs_addFreeJoint, mjs_addGeom, mjs_addSite, mjs_addActuator, mjs_addSensor, mjs_addTendon..., mj_compile(spec, NULL), mj_makeData; see include/mujoco/mujoco.h and mjspec.h). Compile a demo with: `gcc -O1 -I include -I src -I _seedkit/stubs demo.c _seedkit/libmujoco_nox.a -lstdc++ -lm -lpthread -ldl -o demo` (g++ -std=c++20 for C++; static/internal functions can be reached by `#include "engine/engine_xxx.c"` in the demo instead of linking that object). Python code of the repo (doc/generate, python/mujoco/...) must be run with /venv/bin/python importing the modules BY PATH from the worktree (the installed `mujoco` package is a different version; do not use it as the code under test). The machine is heavily loaded; builds take a few minutes; wrap long commands in `timeout`.
 
-Procedure: (a) read the relevant source; (b) write the demo first and confirm it PASSES on the unmodified worktree (build the library first); (c) make the change, rebuild (`_seedkit/build_lib.sh`), confirm the demo FAILS, confirm the 86 tests pass; (d) save in /tmp/seed-{pid}/_seed/: `patch.diff` (output of `git diff` for tracked files only — must apply to a clean checkout with `git apply`), the demo source (`demo.c` / `demo.cc` / `demo.py`) with a comment on top saying how to build/run it, and `meta.json` with keys: property, summary (what the change does), needs (what specific condition is needed for the violation to manifest), files_changed, demo_build_cmd, demo_run_cmd, demo_pass_output, demo_fail_output. Keep the change minimal (a few lines). Do not add comments that reveal the bug.
+Procedure: (a) read the relevant source; (b) write the demo first and confirm it PASSES on the unmodified worktree (build the library first); (c) make the change, rebuild (`_seedkit/build_lib.sh`), confirm the demo FAILS, confirm the 86 tests pass; (d) save in /tmp/seed-{pid}/_seed/: `patch.diff` (output of `git diff` for tracked files only — must apply to a clean checkout with `git apply`), the demo source (`demo.c` / `demo.cc` / `demo.py`) with a comment on top saying how to build/run it, and `meta.json` with keys: property, summary (what the change does), needs (what specific condition is needed for the violation to manifest), files_changed, demo_build_cmd, demo_run_cmd, demo_pass_output, demo_fail_output. Keep the change minimal (a few lines). Do not add comments that reveal the bug. Do NOT use `git stash` (the stash is shared between worktrees of other people); to test on clean code use `git diff > /tmp/mychange.diff; git checkout -- <files>; ...; git apply /tmp/mychange.diff`.
 
 Final answer: a short description of the change, the manifest condition, and confirmation of (b) and (c) with the observed outputs.""")
